@@ -14,7 +14,10 @@ RULE = ("headless sessions of the real Model (held Term, scripted command feeder
         "25% under forced schedules aimed at the reader-finish and matcher-finish windows; every recorded trace of shared-memory steps is "
         "replayed through the Lean transition system (must be accepted and predict every snapshot) and every quiescent snapshot of the REAL model is "
         "judged against filter(source, current query). non-trivial = >= 2 chunks or >= 1 query/command event, and >= 1 item; distinct by sha1")
-ASSUMPTIONS = ["handlers are atomic with stale-false reads of monotone flags (reduction argued in Model/Session.lean, not formalised)",
+EXTRA_PROPS = ["SessionFG"]   # the same statements at READ granularity (Props/SessionFG.lean)
+ASSUMPTIONS = ["granularity: the theorems fg_* are proved for the system in which the heart-beat handler is split at every read of a foreign flag and other threads run between any two "
+               "reads (Model/SessionFG.lean); what stays atomic there: the harvest (one critical section), restart_matcher (no matcher thread exists while it runs; reader pushes commute "
+               "with it) and the user-event handlers (kill = store + join). The trace replay still uses the coarse system (atomic handlers, stale-false reads)",
                "rayon's par_iter inside one matcher run is one atomic tPublish; channels are FIFO; the timer fires unless its guard is dropped",
                "the per-item verdict of the engines is a parameter (match table computed with the real engine factories)"]
 
@@ -56,7 +59,9 @@ TECHNIQUE = "Lean 4 invariant proof over a labelled transition system (reader/ma
 LEVEL_TEXT = ("c01_invariant proves the accounting invariant for every history of the Session transition system (every interleaving of reader, matcher thread, timer and "
               "event loop, every chunking, every query/mode/command history); c01_quiescent_exact derives that at quiescence the list is exactly the matching items of the "
               "current source for the current query (nothing stale), session_item_index that identities are input positions; liveness is carried by c01_wakeup_pending and "
-              "c01_no_deadlock (a wake-up is always pending, no non-quiescent state is stuck). c01_prefix_counterexample exhibits the pre-fix race. "
+              "c01_no_deadlock (a wake-up is always pending, no non-quiescent state is stuck). c01_prefix_counterexample exhibits the pre-fix race. fg_invariant / fg_quiescent_exact "
+              "are the same safety statements for the fine-grained system (handler split at every read, accurate or stale readings, any steps of other threads in between); "
+              "fg_contains_atomic: the atomic handler is one of its schedules. "
               "Tie: real sessions emit an ordered trace of their shared-memory steps; the Lean step function must accept it and predict list/selection/clear state after every loop iteration.")
-LEVEL_NOTE = ("PARTIAL for liveness: termination needs weak fairness of the four threads, which is not formalised. Model granularity: handlers atomic with stale-false reads "
-              "(argued, not proved). Trusted: Lean kernel, the trace hooks (feature `verif`) and vlib/props/session.py (linearisation rules stated there), rayon/crossbeam/timer.")
+LEVEL_NOTE = ("PARTIAL for liveness: termination needs weak fairness of the four threads, which is not formalised. Granularity: safety is proved at read granularity (fg_*); liveness and the trace replay use the coarse system "
+              "(atomic handlers with stale-false reads). Trusted: Lean kernel, the trace hooks (feature `verif`) and vlib/props/session.py (linearisation rules stated there), rayon/crossbeam/timer.")
